@@ -58,3 +58,11 @@ claim("C24", "model_checking", "TLA+ reference semantics (grammar recogniser, Bo
       "whose files carry a constraint and its negation are run with `wa run -tags=...`; which file was compiled must match TLC's truth table.",
       "Trusted: TLC, the token renderer. Bounded: 3 tags, length <= 7; target OS/arch tags only through the -tags mechanism.",
       "DESIGN.md section 4 C24")
+
+claim("C19", "model_checking", "TLA+ bit-level reference codec evaluated by TLC on boundary values and byte-sequence spaces + one execution of every real encoder/decoder front end per case",
+      "Leb128.tla defines minimal-length LEB128 encoding and the WebAssembly decoding limits (at most ceil(W/7) bytes; unused bits of the last allowed byte must be zero / "
+      "repeat the sign) on bit sequences, for u32, s32, s33, u64, s64. TLC checks round trip and minimality of the reference and emits (value, bytes) for ~7(W+1) boundary "
+      "bit patterns per codec and (bytes, value+count | TooLong | BadBits | EOF) for every sequence of length <= 4 over 10 byte classes, 5-byte sequences with 22 last-byte "
+      "classes, and structured 8-12 byte sequences for 64 bits. Every case runs on Encode*/Decode*/Load* (both reader front ends).",
+      "Trusted: TLC, the 8-byte little-endian value transfer. 'All 2^32 values' is reached only through the boundary patterns; DecodeUint64 does not exist in the package.",
+      "DESIGN.md section 4 C19")
